@@ -347,8 +347,20 @@ class Extract(object):
         self.BLOWER = prog.variant_index("range::Bound", "Lower")
         self.vnames = prog.field_names("Version")
         self.PRED = {prog.variant_index("range::Predicate", n): n for n in ("Excluding", "Including", "Unbounded")}
+        # panic analyses: BoundSet::new may also answer None unless the pair is valid by construction (an unbounded
+        # side, or the same version inclusive on both sides); the caller explores both outcomes
+        self.may_fail = False
 
     def new_stub(self, interp, args, info):
+        if self.may_fail:
+            try:
+                lo, up = self.bound_cut(interp, args[0], "L"), self.bound_cut(interp, args[1], "U")
+                definite = lo == ("-inf",) or up == ("+inf",) or (lo[0] == "before" and up[0] == "after" and lo[1] == up[1])
+            except Inconclusive:
+                definite = False
+            if not definite and interp.ctx.choose("BoundSet::new", 2) == 1:
+                interp.events.append(("new-none", args[0], args[1]))
+                return NONE
         f = [None] * self.nf
         ftys = self.prog.adts["range::BoundSet"].get("field_tys", [[]])[0]
         boxed = [self.prog.ty_str(t).startswith("std::boxed::Box<") for t in ftys] if ftys else [True] * self.nf
@@ -414,15 +426,15 @@ class Extract(object):
         up = self.bound_cut(interp, bs.fields[self.f_upper], "U")
         return (lo, up, None)
 
-    def run_closure(self, clo, env):
+    def run_closure(self, clo, env, ctx=None):
         body = self.prog.body(clo.key)
-        it = Interp(self.prog, Policy(), overrides={"range::BoundSet::new": self.new_stub})
+        it = Interp(self.prog, Policy(), ctx=ctx, overrides={"range::BoundSet::new": self.new_stub})
         arg = mk_by_type(self.prog, body["locals"][2], env)
         val = it.call_closure(clo, [arg])
         sp = it.ret_span.get(clo.key)
         return self.cell_of(it, val), (self.prog.span_str(sp) if sp else None), it
 
-    def run_hyphen(self, key, lo_shape, up_shape):
+    def run_hyphen(self, key, lo_shape, up_shape, ctx=None):
         prog = self.prog
 
         class Pol(Policy):
@@ -432,7 +444,7 @@ class Extract(object):
                 return ok(Tok("O", "tok"))
         ov = {"range::BoundSet::new": self.new_stub,
               "range::partial_version": lambda interp, args, info: ok(mk_partial(prog, up_shape, "up:"))}
-        it = Interp(prog, Pol(), overrides=ov)
+        it = Interp(prog, Pol(), ctx=ctx, overrides=ov)
         inp = Ptr(Cell(Ptr(Cell(Tok("T", "input", "", dom="input")))))
         val = it.call_body(key, [inp])
         if not (isinstance(val, Adt) and val.name == "std::result::Result" and val.variant == 0):
